@@ -82,6 +82,27 @@ static void * locker(void * arg_) {
         atomic_fetch_add(&g_lock_ops, 1);
         got = 1;
       }
+    } else if (op == 8) {
+      /* deadline a few microseconds away: the call either acquires (and then owns the mutex) or
+         times out (and then does not: the mutex must stay available to everybody else); a time-out
+         implies a failed attempt inside the call, so it is logged like a failed trylock */
+      struct timespec ts;
+      clock_gettime(CLOCK_REALTIME, &ts);
+      ts.tv_nsec += (long)hk_below(&r, 150000);
+      if (ts.tv_nsec >= 1000000000L) { ts.tv_nsec -= 1000000000L; ts.tv_sec++; }
+      uint64_t t0 = myth_verif_stamp();
+      int rc = myth_mutex_timedlock(&g_mx[m].m, &ts);
+      uint64_t t1 = myth_verif_stamp();
+      if (rc == 0) { got = 1; c0 = t0; atomic_fetch_add(&g_timed_ok, 1); }
+      else {
+        HK_CHECK(rc == ETIMEDOUT, "mutex:timedlock-rc", "timedlock returned %d", rc);
+        atomic_fetch_add(&g_timed_to, 1);
+        if (L->nfails[m] < g_iters * 4) { L->fails[m][L->nfails[m]].a = t0; L->fails[m][L->nfails[m]].b = t1; L->nfails[m]++; }
+        c0 = myth_verif_stamp();
+        myth_mutex_lock(&g_mx[m].m);
+        atomic_fetch_add(&g_lock_ops, 1);
+        got = 1;
+      }
     } else {
       struct timespec ts;
       hkm_abstime_in(&ts, 3600);
@@ -249,6 +270,7 @@ int main(int argc, char ** argv) {
   hk_report("trylock_ok", atomic_load(&g_try_ok));
   hk_report("trylock_busy", atomic_load(&g_try_busy));
   hk_report("timedlock_ok", atomic_load(&g_timed_ok));
+  hk_report("timedlock_timed_out", atomic_load(&g_timed_to));
   hk_report("failed_trylocks_checked_against_hold_intervals", rule_checked);
   hk_report("resumed_on_other_worker", atomic_load(&g_resumed_elsewhere));
   hk_report("workers", myth_get_num_workers());
